@@ -911,6 +911,12 @@ func (e *Encoder) instr(in ssa.Instruction, st *State, pc string) {
 		if in.CommaOk {
 			z := e.zero(in.AssertedType)
 			e.vals[in] = Val{T: in.Type(), Tuple: []Val{{T: in.AssertedType, S: fmt.Sprintf("(ite %s %s %s)", okS, v.S, z.S)}, {T: types.Typ[types.Bool], S: okS}}}
+		} else if cl, ok := in.X.(*ssa.Call); ok && cl.Call.StaticCallee() != nil && cl.Call.StaticCallee().String() == "(*sync.Pool).Get" {
+			// pool.Get().(T): pools are type-homogeneous (every Put and the New function supply a T) - assumed,
+			// and listed among the assumptions
+			c.notes["assumed: a type assertion directly on (*sync.Pool).Get succeeds (pools hold values of one type)"] = true
+			c.assume(implies(pc, okS))
+			e.vals[in] = v
 		} else {
 			e.panicObl("typeassert", "type assertion", pc, okS)
 			e.vals[in] = v
